@@ -202,13 +202,32 @@ fn end_to_end(run: &mut Run, quick: bool) {
     let scripts: Vec<Vec<(usize, &str)>> = vec![vec![(0, "set k v1")], vec![(1, "set k v1")], vec![(0, "set k v1"), (0, "increment c")], vec![(0, "remove k"), (1, "set k v2")], vec![(0, "create-db d2 tok2")]];
     let mut states = 0;
     let mut capped = 0;
-    for nodes in if quick { vec![2] } else { vec![2, 3] } {
-        for sc in scripts.iter() {
+    for nodes in vec![2, 3] {
+        for (si, sc) in scripts.iter().enumerate() {
+            // quick: one script on three nodes (two secondaries), state-capped and single-threaded
+            if quick && nodes == 3 && si != 0 {
+                continue;
+            }
             let script = Script { ops: sc.iter().map(|(n, c)| (*n, c.to_string())).collect() };
             let setup = ClusterSetup { nodes, strategy: "none", init: vec!["set k v0".into(), "set c 5".into()] };
             let mk = || build(&setup, &script);
             let on_state = |w: &NetWorld, _: &[T]| -> Vec<(String, String)> {
                 let mut out = vec![];
+                // an operation stays pending while a copy of it, or the acknowledgement of a copy,
+                // is still on its way
+                for l in w.links.iter() {
+                    if !l.open {
+                        continue;
+                    }
+                    let pend = w.nodes[l.from].node.dbs.pending_opps.read().unwrap();
+                    let ids_fwd = l.fwd.iter().filter_map(|m| m.strip_prefix("rp ").and_then(|r| r.split(' ').next()).and_then(|x| x.parse::<u64>().ok()));
+                    let ids_back = l.back.iter().filter_map(|m| m.strip_prefix("ack ").and_then(|r| r.split(' ').next()).and_then(|x| x.parse::<u64>().ok()));
+                    for id in ids_fwd.chain(ids_back) {
+                        if !pend.contains_key(&id) {
+                            out.push(("operation-not-pending-while-a-copy-is-unacknowledged".to_string(), format!("a copy (or its acknowledgement) is still in flight but the sender no longer lists the operation as pending; n{} -> n{} op {}", l.from + 1, l.to + 1, id)));
+                        }
+                    }
+                }
                 for (i, n) in w.nodes.iter().enumerate() {
                     let p = n.node.dbs.pending_opps.read().unwrap();
                     for (id, m) in p.iter() {
@@ -233,7 +252,11 @@ fn end_to_end(run: &mut Run, quick: bool) {
                 }
                 out
             };
-            let cfg = NetCfg { max_states: if quick { 3000 } else { 30000 }, max_path: 200, budget: std::time::Duration::from_secs(if quick { 5 } else { 60 }), workers: crate::util::workers(), by_deviations: false };
+            let cfg = if quick && nodes == 3 {
+                NetCfg { max_states: 120, max_path: 200, budget: std::time::Duration::from_secs(300), workers: 1, by_deviations: true }
+            } else {
+                NetCfg { max_states: if quick { 3000 } else { 30000 }, max_path: 200, budget: std::time::Duration::from_secs(if quick { 5 } else { 60 }), workers: crate::util::workers(), by_deviations: false }
+            };
             match explore_net(&mk, &on_state, &on_q, &cfg) {
                 Ok((st, findings)) => {
                     states += st.states;
